@@ -64,7 +64,7 @@ def make_case(seed: int, tier: str, prop: str, opts=None) -> Dict[str, Any]:
                     sc["conns"].append({"src": i, "se": 0, "dst": j, "de": 0, "pairs": [["e_out", va]],
                                         "shift": 0, "weak": False})
         return {"scenario": sc, "schedules": [c["schedule"]]}
-    elif fam == 19 and not force:
+    elif (fam == 19 or (prop == "C01" and fam == 11)) and not force:
         sc = gen.gen_deeptail(seed, tier) if h64(seed, "family2") % 10 < 3 else gen.gen_twopath(seed, tier)
     elif fam == 12 and not force:
         sc = gen.gen_diamond(seed, tier)
